@@ -271,7 +271,7 @@ NEAR_MISSES = [
     b"[-1, 2]", b"[ -1, 2]", b"[+1]", b"[1, 2,]", b"[,]", b"[1 2]", b"[1 : 2, 3]", b"[1 : 2, 3 : 4,]", b"{/a : 1,}", b"{}", b"[]",
     b"fn:map()", b"{/a 1}", b"p()", b"p(,)", b"p(1,)", b"p(q(1))", b"fn:f(p(1))", b"[p(1)]", b"1.", b".5", b"-.5", b"1.5e3", b"1.5e",
     b"1e5", b"-", b"--1", b"007", b"-0", b"9223372036854775807", b"9223372036854775808", b"-9223372036854775808",
-    b"-9223372036854775809", b"010", b"-010", b"00", b"09", b"0x10", b"7d", b"7m", b"5ms", b"2024-01-15", b"2024-01-15T10:30:00Z", b"2024-01-1", b"12024-01-15", b"/a/", b"/",
+    b"X,", b"[1],", b"p(1),", b"1,", b"1, 2", b"-9223372036854775809", b"010", b"-010", b"00", b"09", b"0x10", b"7d", b"7m", b"5ms", b"2024-01-15", b"2024-01-15T10:30:00Z", b"2024-01-1", b"12024-01-15", b"/a/", b"/",
     b"//a", b"/a//b", b"/a.b-c_d~e%f", b"/a b", b"X", b"_", b"_x", b"X_1", b"X.y", b"X:", b"[X: 1]", b"[X : 1]", b"Package", b"Use",
     b"let", b"do", b"now", b"opt(1)", b"bound(1)", b"b", b"b(1)", b"b\"x\"", b"b'x'", b"b`x`", b"`a\\nb`", b"`a\\`b`", b"'a\"b'", b"\"a'b\"",
     b"\"a\\qb\"", b"\"\\x4g\"", b"\"\\x4A\"", b"\"\\x4a\"", b"\"\\u{41}\"", b"\"\\u{0041}\"", b"\"\\u{000041}\"", b"\"\\u{0000041}\"",
